@@ -364,3 +364,10 @@ def make_qp_problem(E, var_kinds, m, fmt="coo"):
             return make_sparse(fmt, (n, n), [(a, b, Q[a][b]) for a in range(n) for b in range(n)])
 
     return P(), dict(n=n, m=m, xl=xl, xu=xu, Q=Q, q=q, A=A, b=bb)
+
+
+def close(a, b):
+    """equality that tolerates rounding when the harness is replayed on floats"""
+    if boot.MODE == "sym":
+        return a == b
+    return abs(a - b) <= 1e-9 * (1.0 + abs(b))
